@@ -30,7 +30,7 @@ RULE = (
     "is hashed in-process and in a second interpreter with another PYTHONHASHSEED and time zone, generated values once more after an inner container "
     "was modified in place (must equal the hash of a fresh equal value); all values are bucketed by "
     "signature and two values in one bucket must have the same canonical form (tuple->list, bool->int, path/date->text, "
-    "dict->list of [key,value] pairs; a dataclass is its own kind). Non-trivial = value contains a boundary int (outside 32 bits or at its "
+    "dict->list of [key,value] pairs in insertion order (the code) or sorted by key (the documentation); a dataclass is its own kind). Non-trivial = value contains a boundary int (outside 32 bits or at its "
     "edge), a special float, an empty container or a separator/marker-like string; distinct by encoded value."
 )
 ASSUMPTIONS = [
@@ -53,6 +53,9 @@ ATOMS = [
 ]
 # integers whose two's-complement 64-bit pattern is the IEEE-754 pattern of a float of the alphabet (-0.0, 1.0, -1.0, inf, nan, 5e-324)
 ATOMS += [int.from_bytes(__import__("struct").pack("!d", f_), "big", signed=True) for f_ in (-0.0, 1.0, -1.0, float("inf"), float("nan"), 5e-324)]
+# a small integer / a float and the string whose UTF-8 bytes are its packed form (struct '!l' / '!d')
+PACKED_TWINS = [(0x61626364, "abcd"), (__import__("struct").unpack("!d", b"abcdefgh")[0], "abcdefgh")]
+ATOMS += [x for pair in PACKED_TWINS for x in pair]
 SMALL = [None, True, 0, 1, 2 ** 31, 0.0, float("nan"), "", "a", "|", "__DDS_NONE__", pathlib.PurePosixPath("a")]
 KEYS = ["a", "b", "x", "", "|", 0, 1, None, "1", "0", "None", True, 1.0, "1.0"]   # "x", "a", "b" = the field names of DC1 / DC2
 
@@ -87,6 +90,48 @@ def canon(v):
         # no identification of a dataclass with a dict / list is documented: a dataclass is its own kind of value
         return ["dataclass", [["list", [canon(f.name), canon(getattr(v, f.name))]] for f in dataclasses.fields(v)]]
     raise TypeError(type(v))
+
+
+def canon_sorted(v):
+    """The other documented reading of plain dictionaries: "evaluated as sorted lists (by their keys)" (dds.keep docstring).
+    Same as canon() except that the items of a plain dict are sorted."""
+    c = canon(v)
+
+    def walk(x, c_):
+        # x: value, c_: its canonical form (parallel walk over containers)
+        if isinstance(x, dict) and not isinstance(x, collections.OrderedDict):
+            pairs = [["list", [canon_sorted(k), canon_sorted(y)]] for k, y in x.items()]
+            return ["list", sorted(pairs, key=lambda p_: json.dumps(p_, sort_keys=True))]
+        if isinstance(x, collections.OrderedDict):
+            return ["list", [["list", [canon_sorted(k), canon_sorted(y)]] for k, y in x.items()]]
+        if isinstance(x, (list, tuple)):
+            return ["list", [canon_sorted(y) for y in x]]
+        import dataclasses
+
+        if dataclasses.is_dataclass(x) and not isinstance(x, type):
+            return ["dataclass", [["list", [canon(f.name), canon_sorted(getattr(x, f.name))]] for f in dataclasses.fields(x)]]
+        return c_
+
+    return walk(v, c)
+
+
+def canon_keys(v):
+    """the canonical spellings of a value: two values may share a signature iff they have one in common (insertion-ordered
+    dictionaries = what the code does, or sorted dictionaries = what the documentation says)"""
+    return {json.dumps(canon(v), sort_keys=True), json.dumps(canon_sorted(v), sort_keys=True)}
+
+
+def bucket_add(bucket, v, tag):
+    """bucket: list of (canonical spellings, tag); returns the tag of a value with the same signature but no common spelling, else None"""
+    ks = canon_keys(v)
+    for (ks0, _t) in bucket:
+        if ks & ks0:
+            if not ks <= ks0:
+                bucket.append((ks, tag))
+            return None
+    other = bucket[0][1] if bucket else None
+    bucket.append((ks, tag))
+    return other
 
 
 def has_opaque(v):
@@ -169,9 +214,30 @@ def depth1(atoms, keys, small):
 
 def excluded_atoms():
     """Atoms excluded by construction because of an *open* known finding (counted in evidence)."""
+    out = []
     if "digest-string" in common.open_features(ID):
-        return [_HEX_A]
-    return []
+        out.append(_HEX_A)
+    if "packed-number-string" in common.open_features(ID):
+        out += [s for (_n, s) in PACKED_TWINS]
+    return out
+
+
+def known_collision(a, b):
+    """the pair is an instance of the open known finding 'packed-number-string' (a number and the string spelling its packed bytes)"""
+    import struct
+
+    if "packed-number-string" not in common.open_features(ID):
+        return False
+    for x, y in ((a, b), (b, a)):
+        if isinstance(y, str) and not isinstance(x, bool):
+            try:
+                if isinstance(x, int) and -(2 ** 31) <= x < 2 ** 31 and struct.pack("!l", x) == y.encode("utf-8"):
+                    return True
+                if isinstance(x, float) and struct.pack("!d", x) == y.encode("utf-8"):
+                    return True
+            except (struct.error, UnicodeError):
+                pass
+    return False
 
 
 def enumerate_values(tier):
@@ -285,7 +351,7 @@ def shard_enum(idx, n, tier, seed):
     ev.extra["enumerated_total"] = len(vals) if idx == 0 else 0
     if idx == 0:
         for a in excluded_atoms():
-            ev.excluded["digest-string:" + a[:12]] += 1
+            ev.excluded[("digest-string:" if a == _HEX_A else "packed-number-string:") + a[:12]] += 1
     ev.exhaustive = True
     return ev, None
 
@@ -334,15 +400,11 @@ def shard_random(idx, n, tier, seed, count):
         nt = nontrivial(v)
         ev.case(j, bool(nt), features=["rand:" + f for f in (nt or ["plain"])])
         if res[0] == "sig":
-            c = json.dumps(canon(v), sort_keys=True)
-            b = buckets.setdefault(res[1], {})
-            if c not in b:
-                b[c] = j
-            if len(b) > 1:
-                a, bb = list(b.values())[:2]
+            other = bucket_add(buckets.setdefault(res[1], []), v, j)
+            if other is not None and not known_collision(dec(other), v):
                 raise Violation(
-                    f"collision: {dec(a)!r} and {dec(bb)!r} share signature {res[1]}",
-                    {"kind": "collision", "a": a, "b": bb},
+                    f"collision: {dec(other)!r} and {v!r} share signature {res[1]}",
+                    {"kind": "collision", "a": other, "b": j},
                 )
             # a value and its re-hash must agree (same process)
             if dds_hash(v) != res[1]:
@@ -538,16 +600,12 @@ def _global_buckets(tier):
             s = dds_hash(v)
         except BaseException:
             continue
-        c = json.dumps(canon(v), sort_keys=True)
-        b = buckets.setdefault(s, {})
-        if c not in b:
-            b[c] = i
-            if len(b) > 1:
-                i0, i1 = list(b.values())[:2]
-                raise Violation(
-                    f"collision: {vals[i0]!r} and {vals[i1]!r} share signature {s}",
-                    {"kind": "collision", "a": enc(vals[i0]), "b": enc(vals[i1])},
-                )
+        i0 = bucket_add(buckets.setdefault(s, []), v, i)
+        if i0 is not None and not known_collision(vals[i0], v):
+            raise Violation(
+                f"collision: {vals[i0]!r} and {v!r} share signature {s}",
+                {"kind": "collision", "a": enc(vals[i0]), "b": enc(v)},
+            )
 
 
 def replay(case):
@@ -565,7 +623,7 @@ def replay(case):
         a, b = dec(case["a"]), dec(case["b"])
         ra = hash_value(dds_hash, DDSException, codes, a)
         rb = hash_value(dds_hash, DDSException, codes, b)
-        if ra[0] == "sig" and ra == rb and canon(a) != canon(b):
+        if ra[0] == "sig" and ra == rb and not (canon_keys(a) & canon_keys(b)):
             raise Violation(f"collision: {a!r} and {b!r} share signature {ra[1]}", case)
     elif k == "mutated":
         v = dec(case["value"])
